@@ -122,6 +122,10 @@ impl Client {
                 let p = match what.as_str() {
                     "ack" => Packet::Ack(7),
                     "data" => Packet::Data { block_num: 3, data: vec![1, 2, 3] },
+                    // `dataN`: a DATA packet with N payload bytes (as large as, or larger than, the listener's receive buffer)
+                    d if d.starts_with("data") && d[4..].parse::<usize>().is_ok() => {
+                        Packet::Data { block_num: 1, data: vec![0x5a; d[4..].parse::<usize>().unwrap()] }
+                    }
                     "err" => Packet::Error { code: ErrorCode::NotDefined, msg: "x".into() },
                     _ => Packet::Oack(vec![]),
                 };
